@@ -1,5 +1,6 @@
 import BadgerModel.Mvcc
 import BadgerModel.Spec.Mvcc
+import BadgerProofs.Lemmas.Order
 /-!
 # Frame lemmas for the transaction layer (`Db.findTxn/setTxn/modify/doneRead/discardTxn`)
 and the specification of user-level scans used by C05.
@@ -33,12 +34,17 @@ theorem findTxn_setTxn_ne (d : Db) (t : TxnM) (id' : Nat) (h : id' ≠ t.id) :
   induction l with
   | nil => rfl
   | cons x xs ih =>
+    simp only [List.filter_cons]
     by_cases hx : x.id = t.id
     · have h2 : (x.id == id') = false := by simpa [hx] using fun h' => h h'.symm
-      simp [List.filter_cons, hx, h2, ih]
-    · by_cases h3 : x.id = id'
-      · simp [List.filter_cons, hx, h3]
-      · simp [List.filter_cons, hx, h3, ih]
+      have h4 : (x.id != t.id) = false := by simp [hx]
+      simp only [h4, List.find?_cons, h2]
+      exact ih
+    · have h4 : (x.id != t.id) = true := by simp [hx]
+      simp only [h4, if_true, List.find?_cons]
+      cases (x.id == id')
+      · exact ih
+      · rfl
 
 /-! ## shape of `modify` -/
 
@@ -78,14 +84,926 @@ theorem modify_eq {d : Db} {id : Nat} {t : TxnM} (e : Ent) (h : d.findTxn id = s
        | none => (d.setTxn (modTxn d t e), none)) := by
   unfold Db.modify modCheck
   simp only [h]
-  repeat' split
-  all_goals first | rfl | simp_all [modTxn]
+  iterate 8 (split; · rfl)
+  rfl
+
+theorem modify_verdict {d : Db} {id : Nat} {t : TxnM} (e : Ent) (h : d.findTxn id = some t) :
+    (d.modify id e).2 = modCheck d t e := by
+  rw [modify_eq e h]; cases modCheck d t e <;> rfl
 
 theorem modify_shape {d : Db} {id : Nat} {t : TxnM} (e : Ent) (h : d.findTxn id = some t) :
     (d.modify id e).1 = d ∨ ∃ t', t'.id = id ∧ (d.modify id e).1 = d.setTxn t' := by
   rw [modify_eq e h]
   cases modCheck d t e with
   | some err => exact .inl rfl
-  | none => exact .inr ⟨modTxn d t e, findTxn_id h, rfl⟩
+  | none => exact .inr ⟨modTxn d t e, (findTxn_id h : t.id = id), rfl⟩
+
+/-- `Txn.Get` on a key with a pending write (update transaction, not discarded). -/
+theorem txnGet_pending {d : Db} {id : Nat} {t : TxnM} {k : Bytes} {e : Ent}
+    (ht : d.findTxn id = some t) (hk : k ≠ []) (hu : t.update = true) (hd : t.discarded = false)
+    (hp : t.pending.find? (·.key == k) = some e) :
+    d.txnGet id k =
+      (d, if deletedOrExpired e.emeta e.exp d.now then GetRes.notfound else .found e t.readTs) := by
+  unfold Db.txnGet
+  have hk' : k.isEmpty = false := by cases k <;> simp_all
+  simp only [ht, hk', hd, hu, hp, Bool.false_eq_true, if_false, if_true]
+  split <;> rfl
+
+/-! ## frame lemmas: `doneRead`, `discardTxn`, `cleanup` -/
+
+@[simp] theorem doneRead_lsm (d : Db) (t : TxnM) : (d.doneRead t).1.lsm = d.lsm := by
+  unfold Db.doneRead; split <;> rfl
+@[simp] theorem doneRead_opts (d : Db) (t : TxnM) : (d.doneRead t).1.opts = d.opts := by
+  unfold Db.doneRead; split <;> rfl
+@[simp] theorem doneRead_nextTs (d : Db) (t : TxnM) : (d.doneRead t).1.nextTs = d.nextTs := by
+  unfold Db.doneRead; split <;> rfl
+@[simp] theorem doneRead_committed (d : Db) (t : TxnM) : (d.doneRead t).1.committed = d.committed := by
+  unfold Db.doneRead; split <;> rfl
+@[simp] theorem doneRead_discardTs (d : Db) (t : TxnM) : (d.doneRead t).1.discardTs = d.discardTs := by
+  unfold Db.doneRead; split <;> rfl
+@[simp] theorem doneRead_now (d : Db) (t : TxnM) : (d.doneRead t).1.now = d.now := by
+  unfold Db.doneRead; split <;> rfl
+@[simp] theorem doneRead_txns (d : Db) (t : TxnM) : (d.doneRead t).1.txns = d.txns := by
+  unfold Db.doneRead; split <;> rfl
+@[simp] theorem doneRead_lastCleanupTs (d : Db) (t : TxnM) :
+    (d.doneRead t).1.lastCleanupTs = d.lastCleanupTs := by
+  unfold Db.doneRead; split <;> rfl
+theorem doneRead_txn (d : Db) (t : TxnM) : (d.doneRead t).2 = { t with doneRead := true } := by
+  unfold Db.doneRead; split <;> rfl
+theorem doneRead_managed (d : Db) (t : TxnM) (h : d.opts.managed = true) :
+    (d.doneRead t).1 = d := by
+  unfold Db.doneRead; simp [h]
+
+@[simp] theorem cleanup_lsm (d : Db) : d.cleanup.lsm = d.lsm := by
+  unfold Db.cleanup; split; · rfl
+  dsimp only; split <;> rfl
+@[simp] theorem cleanup_opts (d : Db) : d.cleanup.opts = d.opts := by
+  unfold Db.cleanup; split; · rfl
+  dsimp only; split <;> rfl
+@[simp] theorem cleanup_nextTs (d : Db) : d.cleanup.nextTs = d.nextTs := by
+  unfold Db.cleanup; split; · rfl
+  dsimp only; split <;> rfl
+@[simp] theorem cleanup_now (d : Db) : d.cleanup.now = d.now := by
+  unfold Db.cleanup; split; · rfl
+  dsimp only; split <;> rfl
+@[simp] theorem cleanup_txns (d : Db) : d.cleanup.txns = d.txns := by
+  unfold Db.cleanup; split; · rfl
+  dsimp only; split <;> rfl
+@[simp] theorem cleanup_readMark (d : Db) : d.cleanup.readMark = d.readMark := by
+  unfold Db.cleanup; split; · rfl
+  dsimp only; split <;> rfl
+@[simp] theorem cleanup_discardTs (d : Db) : d.cleanup.discardTs = d.discardTs := by
+  unfold Db.cleanup; split; · rfl
+  dsimp only; split <;> rfl
+
+@[simp] theorem discardTxn_lsm (d : Db) (id : Nat) : (d.discardTxn id).lsm = d.lsm := by
+  unfold Db.discardTxn
+  split; · rfl
+  split; · rfl
+  simp
+@[simp] theorem discardTxn_opts (d : Db) (id : Nat) : (d.discardTxn id).opts = d.opts := by
+  unfold Db.discardTxn
+  split; · rfl
+  split; · rfl
+  simp
+@[simp] theorem discardTxn_nextTs (d : Db) (id : Nat) : (d.discardTxn id).nextTs = d.nextTs := by
+  unfold Db.discardTxn
+  split; · rfl
+  split; · rfl
+  simp
+@[simp] theorem discardTxn_committed (d : Db) (id : Nat) :
+    (d.discardTxn id).committed = d.committed := by
+  unfold Db.discardTxn
+  split; · rfl
+  split; · rfl
+  simp
+@[simp] theorem discardTxn_now (d : Db) (id : Nat) : (d.discardTxn id).now = d.now := by
+  unfold Db.discardTxn
+  split; · rfl
+  split; · rfl
+  simp
+@[simp] theorem discardTxn_discardTs (d : Db) (id : Nat) :
+    (d.discardTxn id).discardTs = d.discardTs := by
+  unfold Db.discardTxn
+  split; · rfl
+  split; · rfl
+  simp
+
+theorem lsmForm_congr {d1 d2 : Db} (h : d1.opts = d2.opts) (e : Ent) : d1.lsmForm e = d2.lsmForm e := by
+  unfold Db.lsmForm; rw [h]
+
+/-! ## shape of `commit` -/
+
+/-- the commit timestamp `commitAndSend` obtains -/
+def commitTsOf (d : Db) (mts : Nat) : Nat := if d.opts.managed then mts else d.nextTs
+
+def keepTogetherOf (t : TxnM) : Bool := (t.pending ++ t.dups).all (·.ver == 0)
+
+/-- what `commitAndSend` + `writeToLSM` make of one entry of the transaction -/
+def finEnt (d : Db) (keep : Bool) (cts : Nat) (e : Ent) : Ent :=
+  let e := if e.ver == 0 then { e with ver := cts } else e
+  let e := if keep then { e with emeta := setBit e.emeta bitTxn } else e
+  d.lsmForm e
+
+/-- the entries a commit writes, in write order -/
+def commitEntries (d : Db) (t : TxnM) (cts : Nat) : List Ent :=
+  (t.pending ++ t.dups).map (finEnt d (keepTogetherOf t) cts)
+
+/-- the guard under which `commit` reaches the write path -/
+def commitGoes (d : Db) (t : TxnM) (mts : Nat) : Bool :=
+  !t.pending.isEmpty && !t.discarded &&
+    !(keepTogetherOf t && d.opts.managed && mts == 0) &&
+    !(d.opts.detectConflicts && d.hasConflict t)
+
+theorem commit_none {d : Db} {id : Nat} (mts : Nat) (h : d.findTxn id = none) :
+    d.commit id mts = (d, .err "err:discarded") := by
+  simp [Db.commit, h]
+
+/-- the write path of `commit`, stage by stage -/
+def commitApply (d : Db) (t : TxnM) (id mts : Nat) : Db × CommitRes :=
+  let d1 := (d.doneRead t).1
+  let t1 := (d.doneRead t).2
+  let d2 := if d1.opts.managed then d1 else d1.cleanup
+  let cts := if d2.opts.managed then mts else d2.nextTs
+  let d3 := if d2.opts.managed then d2 else { d2 with nextTs := d2.nextTs + 1 }
+  let d4 := if d3.opts.detectConflicts then { d3 with committed := (cts, t1.writes) :: d3.committed } else d3
+  let entries := (t1.pending ++ t1.dups).map (finEnt d4 (keepTogetherOf t) cts)
+  let d5 := { d4 with lsm := { d4.lsm with mem := entries.foldl (fun m e => memPut e m) d4.lsm.mem } }
+  ((d5.setTxn t1).discardTxn id, .ok cts)
+
+theorem commit_eq {d : Db} {id : Nat} {t : TxnM} (mts : Nat) (h : d.findTxn id = some t) :
+    d.commit id mts =
+      if t.pending.isEmpty then (d.discardTxn id, .noop)
+      else if t.discarded then (d, .err "err:discarded")
+      else if keepTogetherOf t && d.opts.managed && mts == 0 then (d, .err "err:zerocommitts")
+      else if d.opts.detectConflicts && d.hasConflict t then (d.discardTxn id, .conflict)
+      else commitApply d t id mts := by
+  unfold Db.commit commitApply
+  rw [h]
+  dsimp -zeta only
+  generalize d.doneRead t = p
+  obtain ⟨a, b⟩ := p
+  rfl
+
+theorem finEnt_congr {d1 d2 : Db} (h : d1.opts = d2.opts) (keep : Bool) (cts : Nat) :
+    finEnt d1 keep cts = finEnt d2 keep cts := by
+  funext e; unfold finEnt; exact lsmForm_congr h _
+
+theorem commitApply_spec (d : Db) (t : TxnM) (id mts : Nat) :
+    (commitApply d t id mts).2 = .ok (commitTsOf d mts) ∧
+    (commitApply d t id mts).1.lsm =
+      { d.lsm with mem := (commitEntries d t (commitTsOf d mts)).foldl (fun m e => memPut e m) d.lsm.mem } ∧
+    (commitApply d t id mts).1.nextTs = (if d.opts.managed then d.nextTs else d.nextTs + 1) ∧
+    (commitApply d t id mts).1.opts = d.opts ∧ (commitApply d t id mts).1.now = d.now ∧
+    (commitApply d t id mts).1.discardTs = d.discardTs := by
+  unfold commitApply
+  simp only [discardTxn_lsm, setTxn_lsm, discardTxn_nextTs, setTxn_nextTs, discardTxn_opts, setTxn_opts,
+    discardTxn_now, setTxn_now, discardTxn_discardTs, setTxn_discardTs, doneRead_txn]
+  cases hm : d.opts.managed <;> cases hc : d.opts.detectConflicts
+  all_goals
+    simp only [doneRead_opts, hm, hc, cleanup_opts, cleanup_nextTs, doneRead_nextTs, cleanup_lsm, doneRead_lsm,
+      commitTsOf, commitEntries, cleanup_now, doneRead_now, cleanup_discardTs, doneRead_discardTs,
+      Bool.false_eq_true, if_false, if_true, true_and]
+  all_goals
+    refine ⟨?_, trivial⟩
+    rw [finEnt_congr (d2 := d)]
+    first | rfl | simp
+/-- a commit that does not reach the write path returns the database unchanged or only
+    discards the transaction. -/
+theorem commit_stops {d : Db} {id : Nat} {t : TxnM} (mts : Nat) (h : d.findTxn id = some t)
+    (hg : commitGoes d t mts = false) :
+    (d.commit id mts = (d.discardTxn id, .noop)) ∨ (∃ s, d.commit id mts = (d, .err s)) ∨
+    (d.commit id mts = (d.discardTxn id, .conflict)) := by
+  rw [commit_eq mts h]
+  split
+  · exact .inl rfl
+  split
+  · exact .inr (.inl ⟨_, rfl⟩)
+  split
+  · exact .inr (.inl ⟨_, rfl⟩)
+  split
+  · exact .inr (.inr rfl)
+  · exfalso
+    simp_all [commitGoes]
+
+theorem commit_goes_eq {d : Db} {id : Nat} {t : TxnM} (mts : Nat) (h : d.findTxn id = some t)
+    (hg : commitGoes d t mts = true) : d.commit id mts = commitApply d t id mts := by
+  rw [commit_eq mts h]
+  simp only [commitGoes, Bool.and_eq_true, Bool.not_eq_true'] at hg
+  obtain ⟨⟨⟨h1, h2⟩, h3⟩, h4⟩ := hg
+  rw [if_neg (by simp [h1]), if_neg (by simp [h2]), if_neg (by simp [h3]), if_neg (by simp [h4])]
+
+theorem commit_goes {d : Db} {id : Nat} {t : TxnM} (mts : Nat) (h : d.findTxn id = some t)
+    (hg : commitGoes d t mts = true) :
+    (d.commit id mts).2 = .ok (commitTsOf d mts) ∧
+    (d.commit id mts).1.lsm =
+      { d.lsm with mem := (commitEntries d t (commitTsOf d mts)).foldl (fun m e => memPut e m) d.lsm.mem } ∧
+    (d.commit id mts).1.nextTs = (if d.opts.managed then d.nextTs else d.nextTs + 1) ∧
+    (d.commit id mts).1.opts = d.opts ∧ (d.commit id mts).1.now = d.now ∧
+    (d.commit id mts).1.discardTs = d.discardTs := by
+  rw [commit_goes_eq mts h hg]; exact commitApply_spec d t id mts
+
+/-- a commit answers `ok ts` only through the write path. -/
+theorem commit_ok_inv {d : Db} {id mts ts : Nat} (h : (d.commit id mts).2 = .ok ts) :
+    ∃ t, d.findTxn id = some t ∧ commitGoes d t mts = true ∧ ts = commitTsOf d mts := by
+  cases hf : d.findTxn id with
+  | none => rw [commit_none mts hf] at h; cases h
+  | some t =>
+    refine ⟨t, rfl, ?_⟩
+    cases hg : commitGoes d t mts with
+    | false =>
+      rcases commit_stops mts hf hg with h' | ⟨s, h'⟩ | h' <;> rw [h'] at h <;> cases h
+    | true =>
+      have := (commit_goes mts hf hg).1
+      rw [this] at h
+      injection h with h
+      exact ⟨rfl, h.symm⟩
+
+/-! ## meta bits -/
+
+theorem hasBit_setBit_self_vp (m : Nat) : hasBit (setBit m bitValuePointer) bitValuePointer = true := by
+  unfold setBit hasBit bitValuePointer
+  split
+  · assumption
+  · rename_i h; simp only [beq_iff_eq] at h ⊢; omega
+
+theorem hasBit_clearBit_self_vp (m : Nat) : hasBit (clearBit m bitValuePointer) bitValuePointer = false := by
+  unfold clearBit
+  split
+  · rename_i h; unfold hasBit bitValuePointer at *; simp only [beq_iff_eq, beq_eq_false_iff_ne] at h ⊢; omega
+  · rename_i h; simpa using h
+
+/-- bit `2^i`, `i ≠ 1`, is untouched by setting / clearing the value-pointer bit (`2^1`). -/
+theorem hasBit_add_two (m i : Nat) (hi : i ≠ 1) (h : hasBit m 2 = false) :
+    hasBit (m + 2) (2 ^ i) = hasBit m (2 ^ i) := by
+  unfold hasBit at *
+  simp only [beq_eq_false_iff_ne] at h
+  rcases i with _ | _ | i
+  · simp only [Nat.pow_zero, Nat.div_one]; congr 1; omega
+  · exact absurd rfl hi
+  · have e : 2 ^ (i + 1 + 1) = 4 * 2 ^ i := by rw [Nat.pow_succ, Nat.pow_succ]; omega
+    rw [e, ← Nat.div_div_eq_div_mul, ← Nat.div_div_eq_div_mul]
+    have : (m + 2) / 4 = m / 4 := by omega
+    rw [this]
+
+theorem hasBit_sub_two (m i : Nat) (hi : i ≠ 1) (h : hasBit m 2 = true) :
+    hasBit (m - 2) (2 ^ i) = hasBit m (2 ^ i) := by
+  unfold hasBit at *
+  simp only [beq_iff_eq] at h
+  rcases i with _ | _ | i
+  · simp only [Nat.pow_zero, Nat.div_one]; congr 1; omega
+  · exact absurd rfl hi
+  · have e : 2 ^ (i + 1 + 1) = 4 * 2 ^ i := by rw [Nat.pow_succ, Nat.pow_succ]; omega
+    rw [e, ← Nat.div_div_eq_div_mul, ← Nat.div_div_eq_div_mul]
+    have : (m - 2) / 4 = m / 4 := by omega
+    rw [this]
+
+theorem hasBit_setVP (m i : Nat) (hi : i ≠ 1) :
+    hasBit (setBit m bitValuePointer) (2 ^ i) = hasBit m (2 ^ i) := by
+  unfold setBit bitValuePointer
+  split
+  · rfl
+  · rename_i h; exact hasBit_add_two m i hi (by simpa using h)
+
+theorem hasBit_clearVP (m i : Nat) (hi : i ≠ 1) :
+    hasBit (clearBit m bitValuePointer) (2 ^ i) = hasBit m (2 ^ i) := by
+  unfold clearBit bitValuePointer
+  split
+  · rename_i h; exact hasBit_sub_two m i hi h
+  · rfl
+
+/-- setting the transaction bit (64) leaves the delete (1), value-pointer (2), discard-earlier (4)
+    and merge (8) bits alone -/
+theorem hasBit_setTxn (m b : Nat) (hb : b = 1 ∨ b = 2 ∨ b = 4 ∨ b = 8) :
+    hasBit (setBit m bitTxn) b = hasBit m b := by
+  unfold setBit bitTxn
+  split
+  · rfl
+  · unfold hasBit
+    rcases hb with rfl | rfl | rfl | rfl <;> (congr 1; omega)
+
+/-! ## `memPut` -/
+
+theorem mem_memPut_self (e : Ent) (m : List Ent) : e ∈ memPut e m := by
+  induction m with
+  | nil => simp [memPut]
+  | cons x xs ih =>
+    unfold memPut
+    split <;> simp [ih]
+
+theorem mem_memPut {x e : Ent} {m : List Ent} (h : x ∈ memPut e m) : x = e ∨ x ∈ m := by
+  induction m with
+  | nil => simpa [memPut] using h
+  | cons y ys ih =>
+    unfold memPut at h
+    split at h
+    · simpa using h
+    · simp only [List.mem_cons] at h ⊢
+      rcases h with h | h
+      · exact .inl h
+      · exact .inr (.inr h)
+    · simp only [List.mem_cons] at h ⊢
+      rcases h with h | h
+      · exact .inr (.inl h)
+      · rcases ih h with h | h
+        · exact .inl h
+        · exact .inr (.inr h)
+
+/-- `Put` removes an entry only by overwriting its own `(key, version)` slot -/
+theorem mem_memPut_of_mem {y e : Ent} {m : List Ent} (h : y ∈ m) :
+    y ∈ memPut e m ∨ (y.key = e.key ∧ y.ver = e.ver) := by
+  induction m with
+  | nil => cases h
+  | cons x xs ih =>
+    unfold memPut
+    split
+    · exact .inl (List.mem_cons_of_mem _ h)
+    · rename_i heq
+      simp only [List.mem_cons] at h
+      rcases h with h | h
+      · subst h
+        have := (entCmp_eq_iff e y).mp heq
+        exact .inr ⟨this.1.symm, this.2.symm⟩
+      · exact .inl (List.mem_cons_of_mem _ h)
+    · simp only [List.mem_cons] at h
+      rcases h with h | h
+      · subst h; exact .inl (List.mem_cons_self ..)
+      · rcases ih h with h | h
+        · exact .inl (List.mem_cons_of_mem _ h)
+        · exact .inr h
+
+theorem mem_foldl_memPut {x : Ent} {es m : List Ent}
+    (h : x ∈ es.foldl (fun m e => memPut e m) m) : x ∈ es ∨ x ∈ m := by
+  induction es generalizing m with
+  | nil => exact .inr h
+  | cons e es ih =>
+    rcases ih h with h | h
+    · exact .inl (List.mem_cons_of_mem _ h)
+    · rcases mem_memPut h with h | h
+      · exact .inl (h ▸ List.mem_cons_self ..)
+      · exact .inr h
+
+theorem mem_foldl_memPut_keep {x : Ent} {es m : List Ent} (h : x ∈ m)
+    (hs : ∀ y ∈ es, ¬ (x.key = y.key ∧ x.ver = y.ver)) :
+    x ∈ es.foldl (fun m e => memPut e m) m := by
+  induction es generalizing m with
+  | nil => exact h
+  | cons e es ih =>
+    apply ih
+    · rcases mem_memPut_of_mem (e := e) h with h | h
+      · exact h
+      · exact absurd h (hs e (List.mem_cons_self ..))
+    · exact fun y hy => hs y (List.mem_cons_of_mem _ hy)
+
+/-- with pairwise different `(key, version)` slots every written entry is in the memtable
+    afterwards -/
+theorem mem_foldl_memPut_of_distinct {e : Ent} {es m : List Ent}
+    (hd : es.Pairwise (fun a b => ¬ (a.key = b.key ∧ a.ver = b.ver))) (h : e ∈ es) :
+    e ∈ es.foldl (fun m e => memPut e m) m := by
+  induction es generalizing m with
+  | nil => cases h
+  | cons a es ih =>
+    rw [List.pairwise_cons] at hd
+    simp only [List.mem_cons] at h
+    rcases h with h | h
+    · subst h
+      exact mem_foldl_memPut_keep (m := memPut e m) (mem_memPut_self e m) hd.1
+    · exact ih hd.2 h
+
+/-- every written `(key, version)` slot is occupied afterwards -/
+theorem slot_foldl_memPut {e : Ent} {es m : List Ent} (h : e ∈ es ∨ e ∈ m) :
+    ∃ x ∈ es.foldl (fun m e => memPut e m) m, x.key = e.key ∧ x.ver = e.ver := by
+  induction es generalizing m e with
+  | nil =>
+    rcases h with h | h
+    · cases h
+    · exact ⟨e, h, rfl, rfl⟩
+  | cons a es ih =>
+    simp only [List.foldl_cons]
+    rcases h with h | h
+    · simp only [List.mem_cons] at h
+      rcases h with h | h
+      · subst h
+        exact ih (.inr (mem_memPut_self e m))
+      · exact ih (.inl h)
+    · rcases mem_memPut_of_mem (e := a) h with h | h
+      · exact ih (.inr h)
+      · obtain ⟨x, hx, h1, h2⟩ := ih (m := memPut a m) (e := a) (.inr (mem_memPut_self a m))
+        exact ⟨x, hx, by rw [h1, h.1], by rw [h2, h.2]⟩
+
+theorem memPut_sorted {e : Ent} {m : List Ent} (h : SortedEnts m) : SortedEnts (memPut e m) := by
+  unfold SortedEnts at *
+  induction m with
+  | nil => simp [memPut]
+  | cons x xs ih =>
+    rw [List.pairwise_cons] at h
+    unfold memPut
+    split
+    · rename_i hlt
+      rw [List.pairwise_cons]
+      refine ⟨?_, List.pairwise_cons.mpr h⟩
+      intro y hy
+      simp only [List.mem_cons] at hy
+      rcases hy with hy | hy
+      · subst hy; exact hlt
+      · exact entCmp_lt_trans hlt (h.1 y hy)
+    · rename_i heq
+      rw [List.pairwise_cons]
+      exact ⟨fun y hy => entCmp_lt_of_eq_of_lt heq (h.1 y hy), h.2⟩
+    · rename_i hgt
+      rw [List.pairwise_cons]
+      refine ⟨?_, ih h.2⟩
+      intro y hy
+      rcases mem_memPut hy with hy | hy
+      · subst hy; exact (entCmp_gt_iff_lt _ _).mp hgt
+      · exact h.1 y hy
+
+theorem foldl_memPut_sorted {es m : List Ent} (h : SortedEnts m) :
+    SortedEnts (es.foldl (fun m e => memPut e m) m) := by
+  induction es generalizing m with
+  | nil => exact h
+  | cons e es ih => exact ih (memPut_sorted h)
+
+/-- entries newer than `ts` are invisible to the `≤ ts` filter -/
+theorem filter_le_memPut (e : Ent) (m : List Ent) (ts : Nat) (he : ts < e.ver) :
+    (memPut e m).filter (fun x => decide (x.ver ≤ ts)) = m.filter (fun x => decide (x.ver ≤ ts)) := by
+  induction m with
+  | nil => simp [memPut]; omega
+  | cons x xs ih =>
+    unfold memPut
+    split
+    · simp [List.filter_cons]; omega
+    · rename_i heq
+      have := (entCmp_eq_iff e x).mp heq
+      have h1 : ¬ x.ver ≤ ts := by omega
+      have h2 : ¬ e.ver ≤ ts := by omega
+      simp [h1, h2]
+    · simp only [List.filter_cons, ih]
+
+/-! ## `newestLE` -/
+
+/-- the fold of `newestLE` from an arbitrary start -/
+def newestFrom (best : Option Ent) (es : List Ent) (k : Bytes) (ts : Nat) : Option Ent :=
+  es.foldl (fun best e => if e.key = k ∧ e.ver ≤ ts then betterOf best e else best) best
+
+theorem newestLE_eq_from (es : List Ent) (k : Bytes) (ts : Nat) :
+    newestLE es k ts = newestFrom none es k ts := rfl
+
+theorem newestFrom_append (b : Option Ent) (l1 l2 : List Ent) (k : Bytes) (ts : Nat) :
+    newestFrom b (l1 ++ l2) k ts = newestFrom (newestFrom b l1 k ts) l2 k ts := by
+  simp [newestFrom, List.foldl_append]
+
+/-- `newestLE` looks only at the entries of key `k` with version `≤ ts`. -/
+theorem newestFrom_filter (b : Option Ent) (l : List Ent) (k : Bytes) (ts : Nat) :
+    newestFrom b l k ts = newestFrom b (l.filter (fun x => decide (x.key = k ∧ x.ver ≤ ts))) k ts := by
+  induction l generalizing b with
+  | nil => rfl
+  | cons x xs ih =>
+    simp only [List.filter_cons]
+    by_cases h : x.key = k ∧ x.ver ≤ ts
+    · simp only [h, and_self, decide_true, if_true]
+      show newestFrom _ xs k ts = newestFrom _ _ k ts
+      simp only [newestFrom, List.foldl_cons, h, and_self, if_true] 
+      exact ih _
+    · simp only [h, decide_false, Bool.false_eq_true, if_false]
+      show newestFrom _ xs k ts = _
+      simp only [newestFrom, h, if_false]
+      exact ih _
+
+theorem newestLE_congr_filter {l1 l2 : List Ent} (k : Bytes) (ts : Nat)
+    (h : l1.filter (fun x => decide (x.key = k ∧ x.ver ≤ ts)) =
+         l2.filter (fun x => decide (x.key = k ∧ x.ver ≤ ts))) :
+    newestLE l1 k ts = newestLE l2 k ts := by
+  rw [newestLE_eq_from, newestLE_eq_from, newestFrom_filter none l1, newestFrom_filter none l2, h]
+
+theorem filter_and_ver (l : List Ent) (k : Bytes) (ts : Nat) :
+    l.filter (fun x => decide (x.key = k ∧ x.ver ≤ ts)) =
+      (l.filter (fun x => decide (x.ver ≤ ts))).filter (fun x => decide (x.key = k)) := by
+  rw [List.filter_filter]
+  congr 1; funext x; simp
+
+/-- an entry of `k` with version `≤ ts` that strictly dominates every *other* such entry is
+    the answer. -/
+theorem newestFrom_unique_max {x : Ent} {k : Bytes} {ts : Nat} (hk : x.key = k) (hv : x.ver ≤ ts)
+    (l : List Ent) (b : Option Ent)
+    (hb : ∀ y, b = some y → y = x ∨ y.ver < x.ver)
+    (hl : ∀ y ∈ l, y.key = k → y.ver ≤ ts → y = x ∨ y.ver < x.ver)
+    (hx : x ∈ l ∨ b = some x) : newestFrom b l k ts = some x := by
+  induction l generalizing b with
+  | nil =>
+    rcases hx with hx | hx
+    · cases hx
+    · exact hx
+  | cons y ys ih =>
+    simp only [newestFrom, List.foldl_cons]
+    apply ih
+    · intro z hz
+      split at hz
+      · rename_i hq
+        have hy := hl y (List.mem_cons_self ..) hq.1 hq.2
+        cases b with
+        | none => simp only [betterOf] at hz; injection hz with hz; subst hz; exact hy
+        | some b0 =>
+          simp only [betterOf] at hz
+          split at hz
+          · injection hz with hz; subst hz; exact hy
+          · injection hz with hz; subst hz; exact hb _ rfl
+      · exact hb z hz
+    · exact fun z hz => hl z (List.mem_cons_of_mem _ hz)
+    · simp only [List.mem_cons] at hx
+      rcases hx with (hx | hx) | hx
+      · subst hx
+        right
+        rw [if_pos ⟨hk, hv⟩]
+        cases b with
+        | none => rfl
+        | some b0 =>
+          simp only [betterOf]
+          rcases hb b0 rfl with h | h
+          · subst h; simp
+          · simp [h]
+      · exact .inl hx
+      · right
+        subst hx
+        split
+        · rename_i hq
+          simp only [betterOf]
+          rcases hl y (List.mem_cons_self ..) hq.1 hq.2 with h | h
+          · subst h; simp
+          · have : ¬ x.ver < y.ver := by omega
+            simp [this]
+        · rfl
+
+theorem newestLE_unique_max {x : Ent} {k : Bytes} {ts : Nat} {l : List Ent} (hx : x ∈ l)
+    (hk : x.key = k) (hv : x.ver ≤ ts)
+    (hl : ∀ y ∈ l, y.key = k → y.ver ≤ ts → y = x ∨ y.ver < x.ver) :
+    newestLE l k ts = some x :=
+  newestFrom_unique_max hk hv l none (by intro y h; cases h) hl (.inl hx)
+
+/-- what `newestLE` returns is an entry of the list, of key `k`, version `≤ ts`, and no
+    entry of `k` with version `≤ ts` is newer. -/
+theorem newestFrom_some {b : Option Ent} {l : List Ent} {k : Bytes} {ts : Nat} {r : Ent}
+    (h : newestFrom b l k ts = some r) :
+    (r ∈ l ∧ r.key = k ∧ r.ver ≤ ts) ∨ b = some r := by
+  induction l generalizing b with
+  | nil => exact .inr h
+  | cons y ys ih =>
+    simp only [newestFrom, List.foldl_cons] at h
+    rcases ih h with h' | h'
+    · exact .inl ⟨List.mem_cons_of_mem _ h'.1, h'.2⟩
+    · split at h'
+      · rename_i hq
+        cases b with
+        | none =>
+          simp only [betterOf] at h'; injection h' with h'; subst h'
+          exact .inl ⟨List.mem_cons_self .., hq⟩
+        | some b0 =>
+          simp only [betterOf] at h'
+          split at h'
+          · injection h' with h'; subst h'; exact .inl ⟨List.mem_cons_self .., hq⟩
+          · exact .inr h'
+      · exact .inr h'
+
+theorem newestLE_some {l : List Ent} {k : Bytes} {ts : Nat} {r : Ent}
+    (h : newestLE l k ts = some r) : r ∈ l ∧ r.key = k ∧ r.ver ≤ ts := by
+  rcases newestFrom_some h with h | h
+  · exact h
+  · cases h
+
+theorem newestFrom_ver_ge {b : Option Ent} {l : List Ent} {k : Bytes} {ts : Nat} :
+    ∃ r, newestFrom b l k ts = r ∧
+      (∀ y, b = some y → ∃ r', r = some r' ∧ y.ver ≤ r'.ver) ∧
+      (∀ y ∈ l, y.key = k → y.ver ≤ ts → ∃ r', r = some r' ∧ y.ver ≤ r'.ver) := by
+  induction l generalizing b with
+  | nil =>
+    refine ⟨b, rfl, ?_, ?_⟩
+    · intro y hy; exact ⟨y, hy, Nat.le_refl _⟩
+    · intro y hy; cases hy
+  | cons x xs ih =>
+    simp only [newestFrom, List.foldl_cons]
+    obtain ⟨r, hr, h1, h2⟩ := ih (b := if x.key = k ∧ x.ver ≤ ts then betterOf b x else b)
+    refine ⟨r, hr, ?_, ?_⟩
+    · intro y hy
+      subst hy
+      split at h1
+      · simp only [betterOf] at h1
+        split at h1
+        · rename_i hlt
+          obtain ⟨r', hr', hle⟩ := h1 x rfl
+          exact ⟨r', hr', by omega⟩
+        · exact h1 y rfl
+      · exact h1 y rfl
+    · intro y hy hyk hyv
+      simp only [List.mem_cons] at hy
+      rcases hy with hy | hy
+      · subst hy
+        rw [if_pos ⟨hyk, hyv⟩] at h1
+        cases b with
+        | none => exact h1 y rfl
+        | some b0 =>
+          simp only [betterOf] at h1
+          split at h1
+          · exact h1 y rfl
+          · rename_i hnlt
+            obtain ⟨r', hr', hle⟩ := h1 b0 rfl
+            exact ⟨r', hr', by omega⟩
+      · exact h2 y hy hyk hyv
+
+/-- no qualifying entry is newer than the answer; in particular the answer exists when a
+    qualifying entry does. -/
+theorem newestLE_max {l : List Ent} {k : Bytes} {ts : Nat} {y : Ent} (hy : y ∈ l) (hk : y.key = k)
+    (hv : y.ver ≤ ts) : ∃ r, newestLE l k ts = some r ∧ y.ver ≤ r.ver := by
+  obtain ⟨r, hr, -, h2⟩ := newestFrom_ver_ge (b := none) (l := l) (k := k) (ts := ts)
+  obtain ⟨r', hr', hle⟩ := h2 y hy hk hv
+  exact ⟨r', by rw [newestLE_eq_from, hr, hr'], hle⟩
+
+theorem newestLE_none_iff {l : List Ent} {k : Bytes} {ts : Nat} :
+    newestLE l k ts = none ↔ ∀ y ∈ l, ¬ (y.key = k ∧ y.ver ≤ ts) := by
+  constructor
+  · intro h y hy hq
+    obtain ⟨r, hr, -⟩ := newestLE_max hy hq.1 hq.2
+    rw [h] at hr; cases hr
+  · intro h
+    cases hr : newestLE l k ts with
+    | none => rfl
+    | some r =>
+      have := newestLE_some hr
+      exact absurd ⟨this.2.1, this.2.2⟩ (h r this.1)
+
+/-! ## all entries of a state -/
+
+/-- everything below the memtable, in read-precedence order -/
+def Lsm.restEntries (s : Lsm) : List Ent :=
+  (s.imm.reverse ++
+    (match s.levels with
+     | [] => []
+     | l0 :: rest => l0.reverse.map (·.ents) ++ rest.map (fun tbls => (tbls.map (·.ents)).flatten))).flatten
+
+theorem allEntries_eq (s : Lsm) : s.allEntries = s.mem ++ s.restEntries := by
+  unfold Lsm.allEntries Lsm.sources Lsm.restEntries
+  simp only [List.cons_append, List.flatten_cons]
+  rfl
+
+theorem restEntries_mem (s : Lsm) (m : List Ent) : ({ s with mem := m } : Lsm).restEntries = s.restEntries := rfl
+
+theorem pairwise_key_inj {l : List Ent} (h : l.Pairwise (fun a b => a.key ≠ b.key)) {a b : Ent}
+    (ha : a ∈ l) (hb : b ∈ l) (hk : a.key = b.key) : a = b := by
+  induction l with
+  | nil => cases ha
+  | cons x xs ih =>
+    rw [List.pairwise_cons] at h
+    simp only [List.mem_cons] at ha hb
+    rcases ha with ha | ha <;> rcases hb with hb | hb
+    · rw [ha, hb]
+    · subst ha; exact absurd hk (h.1 b hb)
+    · subst hb; exact absurd hk.symm (h.1 a ha)
+    · exact ih h.2 ha hb
+
+
+
+/-! ## operations and runs (the `Db` component of `Driver.mvccStep`) -/
+
+inductive Op
+  | begin (id : Nat) (update : Bool) (mts : Nat)
+  | set (id : Nat) (e : Ent)
+  | get (id : Nat) (k : Bytes)
+  | commit (id : Nat) (mts : Nat)
+  | discard (id : Nat)
+  | iter (id : Nat) (o : IterOpts) (seek : Option Bytes)
+  | flush
+  | setNow (t : Nat)
+  | setDiscard (ts : Nat)
+  | compact (cd : CompactDef)
+
+/-- the reads an iteration records (`Seek(key)` and every `Item()`), as in `mvccStep` -/
+def iterReads (seek : Option Bytes) (items : List Ent) : List Bytes :=
+  (match seek with | some k => if k.isEmpty then [] else [k] | none => []) ++ items.map (·.key)
+
+def Db.step (d : Db) : Op → Db
+  | .begin id u m => (d.begin id u m).1
+  | .set id e => (d.modify id e).1
+  | .get id k => (d.txnGet id k).1
+  | .commit id m => (d.commit id m).1
+  | .discard id => d.discardTxn id
+  | .iter id o seek =>
+    match d.iterate id o seek, d.findTxn id with
+    | some items, some t =>
+      if t.update then d.setTxn { t with reads := iterReads seek items ++ t.reads } else d
+    | _, _ => d
+  | .flush => { d with lsm := d.lsm.flush }
+  | .setNow t => { d with now := t }
+  | .setDiscard ts => ({ d with discardTs := ts } : Db).cleanup
+  | .compact cd =>
+    match d.lsm.compact cd d.discardAtOrBelow d.opts.numKeep d.now with
+    | some l => { d with lsm := l }
+    | none => d
+
+def Db.run (d : Db) (ops : List Op) : Db := ops.foldl Db.step d
+
+theorem begin_nextTs (d : Db) (id : Nat) (u : Bool) (m : Nat) : (d.begin id u m).1.nextTs = d.nextTs := by
+  unfold Db.begin; simp only [setTxn_nextTs]; split <;> rfl
+theorem begin_opts (d : Db) (id : Nat) (u : Bool) (m : Nat) : (d.begin id u m).1.opts = d.opts := by
+  unfold Db.begin; simp only [setTxn_opts]; split <;> rfl
+theorem begin_lsm (d : Db) (id : Nat) (u : Bool) (m : Nat) : (d.begin id u m).1.lsm = d.lsm := by
+  unfold Db.begin; simp only [setTxn_lsm]; split <;> rfl
+
+theorem txnGet_shape (d : Db) (id : Nat) (k : Bytes) :
+    (d.txnGet id k).1 = d ∨ ∃ t', (d.txnGet id k).1 = d.setTxn t' := by
+  unfold Db.txnGet
+  cases hf : d.findTxn id with
+  | none => exact .inl rfl
+  | some t =>
+    dsimp -zeta only
+    split
+    · exact .inl rfl
+    split
+    · exact .inl rfl
+    split
+    · split <;> exact .inl rfl
+    · cases hu : t.update
+      · simp only [Bool.false_eq_true, if_false]
+        split
+        · exact .inl rfl
+        · split <;> exact .inl rfl
+      · simp only [if_true]
+        split
+        · exact .inr ⟨_, rfl⟩
+        · split <;> exact .inr ⟨_, rfl⟩
+
+theorem txnGet_nextTs (d : Db) (id : Nat) (k : Bytes) : (d.txnGet id k).1.nextTs = d.nextTs := by
+  rcases txnGet_shape d id k with h | ⟨t', h⟩ <;> rw [h] <;> rfl
+theorem txnGet_opts (d : Db) (id : Nat) (k : Bytes) : (d.txnGet id k).1.opts = d.opts := by
+  rcases txnGet_shape d id k with h | ⟨t', h⟩ <;> rw [h] <;> rfl
+theorem txnGet_lsm (d : Db) (id : Nat) (k : Bytes) : (d.txnGet id k).1.lsm = d.lsm := by
+  rcases txnGet_shape d id k with h | ⟨t', h⟩ <;> rw [h] <;> rfl
+
+theorem modify_nextTs (d : Db) (id : Nat) (e : Ent) : (d.modify id e).1.nextTs = d.nextTs := by
+  cases h : d.findTxn id with
+  | none => rw [modify_none e h]
+  | some t => rcases modify_shape e h with h1 | ⟨t', -, h1⟩ <;> rw [h1] <;> rfl
+theorem modify_opts (d : Db) (id : Nat) (e : Ent) : (d.modify id e).1.opts = d.opts := by
+  cases h : d.findTxn id with
+  | none => rw [modify_none e h]
+  | some t => rcases modify_shape e h with h1 | ⟨t', -, h1⟩ <;> rw [h1] <;> rfl
+theorem modify_lsm (d : Db) (id : Nat) (e : Ent) : (d.modify id e).1.lsm = d.lsm := by
+  cases h : d.findTxn id with
+  | none => rw [modify_none e h]
+  | some t => rcases modify_shape e h with h1 | ⟨t', -, h1⟩ <;> rw [h1] <;> rfl
+
+/-- `commit` never changes the options and never decreases `nextTs`. -/
+theorem commit_opts (d : Db) (id mts : Nat) : (d.commit id mts).1.opts = d.opts := by
+  cases h : d.findTxn id with
+  | none => rw [commit_none mts h]
+  | some t =>
+    cases hg : commitGoes d t mts with
+    | false =>
+      rcases commit_stops mts h hg with h' | ⟨s, h'⟩ | h' <;> rw [h'] <;> simp
+    | true => exact (commit_goes mts h hg).2.2.2.1
+
+theorem commit_nextTs_ge (d : Db) (id mts : Nat) : d.nextTs ≤ (d.commit id mts).1.nextTs := by
+  cases h : d.findTxn id with
+  | none => rw [commit_none mts h]; exact Nat.le_refl _
+  | some t =>
+    cases hg : commitGoes d t mts with
+    | false =>
+      rcases commit_stops mts h hg with h' | ⟨s, h'⟩ | h' <;> rw [h'] <;> simp
+    | true => rw [(commit_goes mts h hg).2.2.1]; split <;> omega
+
+theorem step_opts (d : Db) (op : Op) : (d.step op).opts = d.opts := by
+  cases op with
+  | begin id u m => exact begin_opts ..
+  | set id e => exact modify_opts ..
+  | get id k => exact txnGet_opts ..
+  | commit id m => exact commit_opts ..
+  | discard id => exact discardTxn_opts ..
+  | iter id o seek =>
+    simp only [Db.step]
+    split
+    · split <;> rfl
+    · rfl
+  | flush => rfl
+  | setNow t => rfl
+  | setDiscard ts => simp [Db.step]
+  | compact cd => simp only [Db.step]; split <;> rfl
+
+theorem step_nextTs_ge (d : Db) (op : Op) : d.nextTs ≤ (d.step op).nextTs := by
+  cases op with
+  | begin id u m => exact Nat.le_of_eq (begin_nextTs ..).symm
+  | set id e => exact Nat.le_of_eq (modify_nextTs ..).symm
+  | get id k => exact Nat.le_of_eq (txnGet_nextTs ..).symm
+  | commit id m => exact commit_nextTs_ge ..
+  | discard id => exact Nat.le_of_eq (discardTxn_nextTs ..).symm
+  | iter id o seek =>
+    simp only [Db.step]
+    split
+    · split <;> exact Nat.le_refl _
+    · exact Nat.le_refl _
+  | flush => exact Nat.le_refl _
+  | setNow t => exact Nat.le_refl _
+  | setDiscard ts => simp [Db.step]
+  | compact cd => simp only [Db.step]; split <;> exact Nat.le_refl _
+
+theorem run_opts (d : Db) (ops : List Op) : (d.run ops).opts = d.opts := by
+  induction ops generalizing d with
+  | nil => rfl
+  | cons op ops ih => simp only [Db.run, List.foldl_cons] at ih ⊢; rw [ih, step_opts]
+
+theorem run_nextTs_ge (d : Db) (ops : List Op) : d.nextTs ≤ (d.run ops).nextTs := by
+  induction ops generalizing d with
+  | nil => exact Nat.le_refl _
+  | cons op ops ih =>
+    simp only [Db.run, List.foldl_cons] at ih ⊢
+    exact Nat.le_trans (step_nextTs_ge d op) (ih _)
+
+/-! ## point reads ignore newer puts -/
+
+theorem srcGet_nil (k : Bytes) (ts : Nat) : srcGet [] k ts = none := rfl
+
+theorem srcGet_cons (x : Ent) (xs : List Ent) (k : Bytes) (ts : Nat) :
+    srcGet (x :: xs) k ts =
+      if kvCmp x.key x.ver k ts = .lt then srcGet xs k ts
+      else if x.key = k then some x else none := by
+  simp only [srcGet, seekGE]
+  by_cases h : kvCmp x.key x.ver k ts = .lt
+  · simp [h]
+  · have : (kvCmp x.key x.ver k ts == .lt) = false := by simpa using h
+    simp [h, this]
+
+/-- a `Put` of a version newer than `ts` does not change `Seek(k@ts)`+`SameKey` on a source. -/
+theorem srcGet_memPut_newer (e : Ent) (m : List Ent) (k : Bytes) (ts : Nat) (h : ts < e.ver) :
+    srcGet (memPut e m) k ts = srcGet m k ts := by
+  -- an entry `≥ (k, ts)` with a version `> ts` has a key strictly above `k`
+  have hkey : ∀ x : Ent, ts < x.ver → kvCmp x.key x.ver k ts ≠ .lt → cmpBytes k x.key = .lt := by
+    intro x hx hnl
+    have h1 : ¬ (cmpBytes x.key k = .lt ∨ (x.key = k ∧ ts < x.ver)) := fun hc => hnl ((kvCmp_lt_iff ..).mpr hc)
+    cases hc : cmpBytes x.key k with
+    | lt => exact absurd (.inl hc) h1
+    | eq => exact absurd (.inr ⟨(cmpBytes_eq_iff _ _).mp hc, hx⟩) h1
+    | gt => exact (cmpBytes_gt_iff_lt _ _).mp hc
+  have hne : ∀ x : Ent, ts < x.ver → kvCmp x.key x.ver k ts ≠ .lt → x.key ≠ k := by
+    intro x hx hnl hh
+    have := hkey x hx hnl
+    rw [hh, cmpBytes_refl] at this; cases this
+  induction m with
+  | nil =>
+    simp only [memPut, srcGet_cons, srcGet_nil]
+    split
+    · rfl
+    · rename_i hnl
+      simp [hne e h hnl]
+  | cons x xs ih =>
+    unfold memPut
+    split
+    · rename_i hlt
+      rw [srcGet_cons (x := e)]
+      split
+      · rfl
+      · rename_i hnl
+        have hk1 := hkey e h hnl
+        have hk2 : cmpBytes k x.key = .lt := by
+          have := entCmp_lt_key_le hlt
+          cases hc : cmpBytes e.key x.key with
+          | lt => exact cmpBytes_lt_trans hk1 hc
+          | eq => rw [← (cmpBytes_eq_iff _ _).mp hc]; exact hk1
+          | gt => exact absurd hc this
+        have hnx : x.key ≠ k := fun hh => by rw [hh, cmpBytes_refl] at hk2; cases hk2
+        have hxnl : kvCmp x.key x.ver k ts ≠ .lt := by
+          have : kvCmp x.key x.ver k ts = .gt :=
+            (kvCmp_gt_iff ..).mpr (.inl ((cmpBytes_gt_iff_lt _ _).mpr hk2))
+          rw [this]; simp
+        rw [srcGet_cons (x := x), if_neg hxnl, if_neg hnx, if_neg (hne e h hnl)]
+    · rename_i heq
+      obtain ⟨hk', hv'⟩ := (entCmp_eq_iff e x).mp heq
+      rw [srcGet_cons (x := e), srcGet_cons (x := x), hk', hv']
+      split
+      · rfl
+      · rename_i hnl
+        have hnx := hne x (by omega) hnl
+        rw [if_neg hnx, if_neg hnx]
+    · rw [srcGet_cons (x := x), srcGet_cons (x := x), ih]
+
+theorem srcGet_foldl_memPut_newer (es m : List Ent) (k : Bytes) (ts : Nat)
+    (h : ∀ e ∈ es, ts < e.ver) :
+    srcGet (es.foldl (fun m e => memPut e m) m) k ts = srcGet m k ts := by
+  induction es generalizing m with
+  | nil => rfl
+  | cons e es ih =>
+    simp only [List.foldl_cons]
+    rw [ih _ (fun x hx => h x (List.mem_cons_of_mem _ hx)),
+      srcGet_memPut_newer e m k ts (h e (List.mem_cons_self ..))]
+
+theorem get_mem_congr (s : Lsm) (m' : List Ent) (k : Bytes) (ts : Nat)
+    (h : srcGet m' k ts = srcGet s.mem k ts) : ({ s with mem := m' } : Lsm).get k ts = s.get k ts := by
+  simp [Lsm.get, h]
+
+theorem filter_le_foldl_memPut (es m : List Ent) (ts : Nat) (h : ∀ e ∈ es, ts < e.ver) :
+    (es.foldl (fun m e => memPut e m) m).filter (fun x => decide (x.ver ≤ ts)) =
+      m.filter (fun x => decide (x.ver ≤ ts)) := by
+  induction es generalizing m with
+  | nil => rfl
+  | cons e es ih =>
+    simp only [List.foldl_cons]
+    rw [ih _ (fun x hx => h x (List.mem_cons_of_mem _ hx)),
+      filter_le_memPut e m ts (h e (List.mem_cons_self ..))]
 
 end Badger
